@@ -670,6 +670,7 @@ impl OriginModel {
                         return None;
                     }
                     self.undetermined.remove(&v);
+                    self.last_seqs.entry(v).or_default().insert(last_seq.0);
                     self.held.insert(v);
                     // buffered leftovers are scheduled for clearing by the agent; the version is held now
                     self.partial.remove(&v);
@@ -704,7 +705,14 @@ impl OriginModel {
     }
 
     pub fn any_ambiguous(&self) -> bool {
-        self.partial.keys().any(|v| self.ambiguous(*v)) || !self.undetermined.is_empty()
+        self.partial.keys().any(|v| self.ambiguous(*v)) || !self.undetermined.is_empty() || self.last_seqs.values().any(|ls| ls.len() > 1)
+    }
+
+    /// suppliers declared different last_seq values for this version (a relay or a later state of the
+    /// origin reports the largest sequence still live): which rows become visible, and when, then
+    /// depends on the order of arrival; the oracles make no demand about such a version
+    pub fn l_conflict(&self, v: u64) -> bool {
+        self.last_seqs.get(&v).is_some_and(|ls| ls.len() > 1)
     }
 
     pub fn on_applied(&mut self, v: u64) {
@@ -714,6 +722,24 @@ impl OriginModel {
 }
 
 /// compare the advertised state for one origin with the model; returns Err(clause, msg)
+/// After a restart the head may have gone back over trailing versions that were held without leaving
+/// data behind (they are "beyond its head" again): compare against the model cut at the advertised head.
+pub fn check_advertised_after_restart(state: &SyncStateV1, origin: ActorId, m: &OriginModel, own: bool) -> Result<(), (String, String)> {
+    let head = state.heads.get(&origin).map(|v| v.0).unwrap_or(0);
+    if head < m.max && !own {
+        for v in head + 1..=m.max {
+            if !m.held.contains(&v) || m.partial.contains_key(&v) {
+                return Err(("head-regression-only-over-dataless-versions".into(), format!("head went back from {} to {head} although v{v} is not a version held without stored data", m.max)));
+            }
+        }
+        let mut cut = m.clone();
+        cut.max = head;
+        cut.held.retain(|v| *v <= head);
+        return check_advertised(state, origin, &cut, own);
+    }
+    check_advertised(state, origin, m, own)
+}
+
 pub fn check_advertised(state: &SyncStateV1, origin: ActorId, m: &OriginModel, own: bool) -> Result<(), (String, String)> {
     let head = state.heads.get(&origin).map(|v| v.0).unwrap_or(0);
     if head != m.max {
@@ -742,7 +768,7 @@ pub fn check_advertised(state: &SyncStateV1, origin: ActorId, m: &OriginModel, o
         if in_need && in_partial {
             return Err(("one-class-only".into(), format!("v{v} is listed both as needed and as partial")));
         }
-        if m.undetermined.contains(&v) || m.ambiguous(v) {
+        if m.undetermined.contains(&v) || m.ambiguous(v) || m.l_conflict(v) {
             continue;
         }
         if own {
